@@ -10,7 +10,8 @@ META = {
         text="static: every evaluation path of the INTERNAL policy that ends OK satisfies the internal-consistency certificate "
              "(all INT-xx rules, calendar / publication / authentication alternatives); verdict table of each internal rule "
              "function equals the documented one; guard tables tie each OK/FAIL verdict to the comparison it documents (one slice per "
-             "absent component); chain shape value table around the 64-bit boundary",
+             "absent component); chain shape value table around the 64-bit boundary and for truth values other than 1; RFC3161 output-hash table "
+             "with two different algorithm ids",
         note="decides policy shape, verdict tables and comparison guards from the source; does NOT decide that recomputed hash "
              "values equal an independent evaluation, nor the accepting direction; engine semantics taken from C05",
         tech="static analysis: rule-table enumeration under the engine semantics + explicit-state CFG exploration of verdict stores + must-pass guards",
@@ -29,7 +30,8 @@ META = {
         ref="DESIGN.md §4 C03"),
     "C04": dict(
         text="static: every OK path of the five anchored policies satisfies the internal certificate and the policy's anchor "
-             "certificate; anchor rules FAIL only with the documented PUB/CAL/KEY code, missing anchors are inconclusive only",
+             "certificate; anchor rules FAIL only with the documented PUB/CAL/KEY code, missing anchors are inconclusive only; guard tables "
+             "of the comparing rules; extender-based rules get the extender's chain or an error, never the signature's own",
         note="decides policy shape and verdict tables; cryptography inside OpenSSL and the extender's honesty are trusted",
         tech="static analysis: rule-table path enumeration + verdict tables + must-pass guards",
         ref="DESIGN.md §4 C04"),
@@ -63,20 +65,23 @@ META = {
     "C09": dict(
         text="static: serializers evaluated over abstract output buffers for the boundary classes of length / tag / flags / buffer "
              "size (no write outside the buffer, short buffer refused, exact header bytes, >0xffff refused); detach re-mapping; "
-             "a refused mutation leaves the length fields unchanged; reader dereferences behind length checks; exact-tiling error exits",
+             "a refused mutation leaves the length fields unchanged; reader dereferences behind length checks; exact-tiling error exits; "
+             "the element codec's nested split over stray octets; scratch buffers hold the largest element",
         note="decides the boundary classes named in the evidence; payload bytes are opaque, round-trip of arbitrary trees is not decided",
         tech="static analysis: finite abstract evaluation of the CFG over abstract byte buffers + dominating range checks + error-on-condition",
         ref="DESIGN.md §4 C09"),
     "C10": dict(
         text="static: the TLV template tables equal the reviewed schema (tags, kinds, multiplicity, constraint flags); every "
-             "constraint flag has an enforcing error exit in the template interpreter; value-parser rejections",
+             "constraint flag is enforced by the template interpreter (accept / reject scenario pairs, repeated and interleaved sections "
+             "included); value-parser tables (integer, imprint, UTF-8, legacy id); presence combinations of a signature's components",
         note="decides schema tables and enforcement branches; the accepting direction is not decided",
         tech="static analysis: constant-table comparison + error-on-condition over the template interpreter",
         ref="DESIGN.md §4 C10"),
     "C11": dict(
         text="static: serialization source is the retained TLV; no TLV-mutating function is reachable from verification; "
              "memoised chain outputs are keyed by the start level; no control dependence on the log level; hand-written clone "
-             "functions give every field of the struct to the clone",
+             "functions give every field of the struct to the clone; logging / dump entry points reach no mutator; an old trust anchor leaves "
+             "the retained tree wherever it stands",
         note="decides structural clauses; equality of verdicts along operation histories is not decided",
         tech="static analysis: call-graph reachability (who-may-write) + decision table + purity-of-control",
         ref="DESIGN.md §4 C11"),
@@ -90,14 +95,16 @@ META = {
         text="static: response delivery is guarded by slot bound, slot occupancy, full-id equality, waiting state, request match "
              "and status; accounting pairs; finalisation table; cache-full predicate; accounting tables of addRequest and of a received "
              "configuration over what the configuration slot holds (accepted = pending + 1, refused = nothing changed, no unreturned "
-             "request leaves the slot)",
-        note="decides delivery guards and accounting pairs; exactly-once over all schedules is not decided",
+             "request leaves the slot); send-timeout table; cache growth keeps every outstanding request in its slot; endpoint configuration is "
+             "all-or-nothing",
+        note="decides delivery guards, accounting pairs and the listed tables; exactly-once over all schedules is not decided",
         tech="static analysis: must-pass guards + paired-effect (control equivalence) + decision tables",
         ref="DESIGN.md §4 C13"),
     "C14": dict(
         text="static: recv/memmove bounded by the buffer, received bytes reach the extraction loop before the next read/close, blocking "
              "reader table over chunk sequences, blocking send-loop table over partial sends, a partly written request never dropped on an "
-             "open connection, stream offsets reset with the socket, would-block edges fail nothing, faults end requests",
+             "open connection, stream offsets reset with the socket, would-block edges fail nothing, faults end requests, the read guard leaves room "
+             "for the rest of a PDU, a proper prefix of an element is never reported with a length that what arrived satisfies",
         note="decides buffer/offset clauses; independence from chunking as an input-output statement is not decided",
         tech="static analysis: bounded-access + paired effects + stale-status rule",
         ref="DESIGN.md §4 C14"),
@@ -115,7 +122,8 @@ META = {
         text="static: level refusal guards (closing level predicted with and without a configured maximum), height prediction fold table, "
              "insertNode and close tables (forest unchanged / nothing lost on failure), level removed when a leaf's chain is put in front, "
              "ownership on error paths of the tree builder, constructor/reset agreement of the block signer including leaf-processor order, "
-             "addLeaf all-or-nothing table (a failing step leaves no leaf in the tree and the mask chain where it was)",
+             "addLeaf all-or-nothing table (a failing step leaves no leaf in the tree and the mask chain where it was), reset with failing steps, "
+             "closeAndSign repeatable after a failed signing, scratch buffers hold the largest element",
         note="decides refusal and agreement clauses; validity of every extracted proof is not decided",
         tech="static analysis: error-on-condition + sibling agreement (constructor vs reset) + call-sequence",
         ref="DESIGN.md §4 C16"),
@@ -137,14 +145,17 @@ META = {
              "function owns exactly once; failures are reported (no dropped status); released fields are reassigned (a callee that "
              "stores only on success reassigns on the success edge only); constructors initialise what their destructor reads; a "
              "reference taken is never discarded; all-or-nothing decision tables for the multi-step updates found by the commit-then-fail "
-             "scan (parallel lists of the context, builder close with a root level, level-correction update)",
+             "scan (parallel lists of the context, builder close with a root level, level-correction update, prepending a chain - the last one "
+             "fails 8 rows on today's tree: known finding F74); whole-struct copies re-assign every released pointer field; a borrowed list element "
+             "is not put into a second owning list",
         note="decides ownership / NULL-check / status rules on every exit of every function and 'unchanged after a refused call' for the "
              "tabled functions; that repeating ANY operation gives the fault-free result is decided only where a table exists; third-party libraries are trusted",
         tech="static analysis: ownership typestate over the goto-cleanup CFG + status hygiene",
         ref="DESIGN.md §4 C19"),
     "C20": dict(
         text="static: scheme map equals the documented table; dispatch tables of the blocking and asynchronous services; "
-             "embedded credentials flow only into login id / key parameters",
+             "embedded credentials flow only into login id / key parameters; the bundled URL parser and uriSplit evaluated on URIs as byte "
+             "strings; a string parameter holds exactly the value last given to it",
         note="decides table, dispatch and flow clauses; http_parser_parse_url itself is trusted",
         tech="static analysis: constant-table comparison + decision tables + must-not-flow",
         ref="DESIGN.md §4 C20"),
